@@ -857,6 +857,7 @@ func emitGuards(w *bytes.Buffer, pi *pkgInfo, repo, prefix, name string) int {
 	base := coqName(prefix, name)
 	count := map[string]int{}
 	n := 0
+	var emitted []string // names of the emitted decisions, in source order (manifest)
 	// force: emit even a bare atom / a constant (conditions, field writes, loop headers: WHAT is tested or
 	// stored matters even when there is no operator in it)
 	var emitAt func(kind string, e ast.Expr, label string, pos token.Pos, force bool)
@@ -911,6 +912,7 @@ func emitGuards(w *bytes.Buffer, pi *pkgInfo, repo, prefix, name string) int {
 			note = "  [divides by a non-constant: Go panics when it is zero]"
 		}
 		fmt.Fprintf(w, "(* %s:%d %s  %s: %s%s *)\n", pi.relfile(pos, repo), pi.fset.Position(pos).Line, name, kind, cmt(t.src(e)), note)
+		emitted = append(emitted, strings.TrimPrefix(nm, base+"__"))
 		fmt.Fprintf(w, "Definition %s %s : %s :=\n  %s.\n", nm, strings.Join(ps, " "), coqTy(ty), body)
 		fmt.Fprintf(w, "Definition %s_atoms : list string := [%s]%%string.\n\n", nm, strings.Join(q, "; "))
 		n++
@@ -1026,6 +1028,7 @@ func emitGuards(w *bytes.Buffer, pi *pkgInfo, repo, prefix, name string) int {
 							}
 							fmt.Fprintf(w, "(* %s:%d %s  bind: %s *)\n", pi.relfile(x.Pos(), repo), pi.fset.Position(x.Pos()).Line, name, cmt(pi.srcOf(x)))
 							fmt.Fprintf(w, "Definition %s_atoms : list string := [\"%s\"]%%string.\n\n", nm, strings.ReplaceAll(pi.srcOf(call), "\"", "'"))
+							emitted = append(emitted, strings.TrimPrefix(nm, base+"__"))
 							n++
 						}
 					}
@@ -1077,6 +1080,13 @@ func emitGuards(w *bytes.Buffer, pi *pkgInfo, repo, prefix, name string) int {
 	if n == 0 {
 		fmt.Fprintf(w, "(* %s %s: no guard or arithmetic expression in the translated subset *)\n\n", pi.relfile(fd.Pos(), repo), name)
 	}
+	// the manifest lists every decision emitted for this function, in source order: a tie that pins it states
+	// "these are ALL the guards / stores of the function" (an ADDED guard then re-opens the tie too)
+	var q []string
+	for _, e := range emitted {
+		q = append(q, "\""+e+"\"")
+	}
+	fmt.Fprintf(w, "Definition %s__manifest : list string := [%s]%%string.\n\n", base, strings.Join(q, "; "))
 	return n
 }
 
